@@ -23,6 +23,7 @@ def shards(tier, seed):
     out.append({'name': 'deep', 'kind': 'deep', 'cases': 6000 if tier == 'quick' else 300000,
                 'budget_s': 40 if tier == 'quick' else 400})
     out.append({'name': 'shipped', 'kind': 'shipped', 'budget_s': 120})
+    out.append({'name': 'repotests', 'kind': 'repotests', 'budget_s': 300})
     return out
 
 
@@ -86,6 +87,10 @@ def run(spec, R):
     rng = shard_rng(ID, spec['seed'], spec['name'])
     tier = spec['tier']
     atoms = gens.en_atoms(feats=(None, 'X', 'nb', 'dcl', 'b')) + gens.ja_atoms()
+    if spec['kind'] == 'repotests':
+        from vlib import repotests
+        repotests.run_repo_tests(R, ['tests/test_cat.py'], lambda: None)
+        return
     if spec['kind'] == 'exh':
         by_n = gens.enumerate_values(atoms, 3)
         idx = 0
